@@ -363,6 +363,10 @@ func (g *gen) malformed() string {
 	case 2:
 		// stale old that disagrees on a field the statistics depend on: drift expected, identically on both sides
 		a := g.someVal()
+		if len(g.acc) > 0 {
+			// same restriction as for the benign stale update: not under a live snapshot
+			return fmt.Sprintf("upd %d rewards 1", a)
+		}
 		return fmt.Sprintf("upds %d rewards 1 %s %s", a, []string{"token", "stake", "status", "role"}[r.Intn(4)], []string{"0", "1", "3", "2"}[r.Intn(4)])
 	case 3:
 		return fmt.Sprintf("remove %d", g.someVal())
